@@ -15,6 +15,7 @@ import OapiVerif.Model.GoJson
 import OapiVerif.Model.EnumClash
 import OapiVerif.Model.Combine
 import OapiVerif.Model.IntParse
+import OapiVerif.Model.DateParse
 /-!
 Line-protocol driver: one JSON object per line in, one per line out.
 `{"fn": <name>, ...}` ↦ `{"ok": <result>}` or `{"err": "bad-op"}` (never a default).
@@ -367,6 +368,12 @@ def parseIntD (j : Json) : Except String Json := do
     | .error .rejected => Json.mkObj [("error", "rejected")]
   pure r
 
+def parseDateD (j : Json) : Except String Json := do
+  let s ← getHex j "s"
+  pure (match DateParse.parse s with
+    | some t => Json.mkObj [("ok", Json.arr #[Json.num t.y, Json.num t.m, Json.num t.d]), ("text", hexStr (DateParse.format t))]
+    | none => Json.mkObj [("error", "rejected")])
+
 def goQuoteD (j : Json) : Except String Json := do
   let s ← getHex j "s"
   let q := Enums.quoteGo s
@@ -526,6 +533,7 @@ def dispatch (fn : String) (j : Json) : Except String Json :=
   | "enumFlags" => enumFlagsD j
   | "combineParams" => combineParamsD j
   | "parseInt" => parseIntD j
+  | "parseDate" => parseDateD j
   | "goQuote" => goQuoteD j
   | "secDefs" => secDefsD j
   | "provider" => providerD j
